@@ -4,6 +4,7 @@ package main
 import (
 	"bytes"
 	"fmt"
+	"hash/crc32"
 	"io"
 	"log"
 	"os"
@@ -591,12 +592,90 @@ func rejFSEval(idx int64, param string) *explore.Result {
 	return res
 }
 
+// ---------------------------------------------------------------- CRC-valid byte substitutions
+
+var substAlpha = []byte{0x00, 0x01, 0x7f, 0x80, 0xfe, 0xff}
+
+func crcTotal(param string) int64 {
+	var n int64
+	for i := range bases {
+		if len(bases[i].enc) > crcMaxBase(param) {
+			continue // quick: the two smallest bases; thorough: all but the 6 KB one (it only differs by a long bitmap)
+		}
+		n += int64(len(bases[i].enc)-4) * int64(len(substAlpha))
+	}
+	return n
+}
+
+func crcMaxBase(param string) int {
+	if param == "thorough" {
+		return 200
+	}
+	return 20
+}
+
+// a base with one body byte replaced and the checksum recomputed: not a
+// damaged file in the sense of the CRC, but mostly not an encoding the writer
+// can produce either (length fields beyond the file, unknown types).  It may be
+// rejected or accepted (some substitutions are valid encodings of another
+// state), but it must not panic, fault or allocate out of proportion.
+func crcEval(idx int64, param string) *explore.Result {
+	var b *base
+	for i := range bases {
+		if len(bases[i].enc) > crcMaxBase(param) {
+			continue
+		}
+		n := int64(len(bases[i].enc)-4) * int64(len(substAlpha))
+		if idx < n {
+			b = &bases[i]
+			break
+		}
+		idx -= n
+	}
+	pos := int(idx / int64(len(substAlpha)))
+	val := substAlpha[idx%int64(len(substAlpha))]
+	desc := fmt.Sprintf("%s with byte %d set to %02x and the CRC recomputed", b.name, pos, val)
+	res := &explore.Result{Outcome: desc, Nontrivial: 1, Key: "crc-valid:" + desc}
+	if b.enc[pos] == val {
+		res.Nontrivial = 0
+		return res
+	}
+	body := append([]byte(nil), b.enc[:len(b.enc)-4]...)
+	body[pos] = val
+	sum := crc32.ChecksumIEEE(body)
+	dmg := append(body, byte(sum>>24), byte(sum>>16), byte(sum>>8), byte(sum))
+	err := guarded(func() error {
+		d := &memDir{snaps: map[uint64][]byte{5: dmg}, segVer: map[uint64]uint32{}}
+		for _, s := range b.spec {
+			d.segVer[s.ID] = s.Version
+		}
+		a0 := allocated()
+		snap, err := index.OpenReader(memConfig(d))
+		a1 := allocated()
+		if err == nil {
+			_ = snap.Close()
+			res.Counts = map[string]int64{"accepted_as_another_valid_state": 1}
+		}
+		if a1-a0 > allocSlack+16*uint64(len(dmg)) {
+			return fmt.Errorf("allocated %d bytes while loading a %d byte file", a1-a0, len(dmg))
+		}
+		return nil
+	})
+	if err != nil {
+		res.Failure = desc + ": " + err.Error()
+		// class key: a length field that points beyond the file
+		res.Key = "crc-valid:length-field-beyond-the-file"
+	}
+	return res
+}
+
 func main() {
 	log.SetOutput(io.Discard)
 	buildSegments()
 	buildBases()
 	explore.RegisterEnum("c12-roundtrip", rtTotal, rtEval)
 	explore.RegisterEnum("c12-reject-mem", rejTotal, rejMemEval)
+	explore.RegisterEnum("c12-crcvalid", crcTotal, crcEval)
 	explore.RegisterEnum("c12-reject-fs", func(p string) int64 { return 2 * rejTotal(p) }, rejFSEval)
 	explore.WorkerMain()
 	c := checkmain.New("C12")
@@ -616,6 +695,8 @@ func main() {
 	st = explore.Enumerate(explore.EnumConfig{Name: "c12-reject-mem", Param: param, Budget: budget, CrashIsViolation: true, Chunk: 500})
 	c.AddEnum(st)
 	st = explore.Enumerate(explore.EnumConfig{Name: "c12-reject-fs", Param: param, Budget: budget, CrashIsViolation: true, Chunk: 500})
+	c.AddEnum(st)
+	st = explore.Enumerate(explore.EnumConfig{Name: "c12-crcvalid", Param: param, Budget: budget, CrashIsViolation: true, Chunk: 8, MaxViol: 50, CrashKey: func(int64) string { return "crc-valid:length-field-beyond-the-file" }})
 	c.AddEnum(st)
 	_ = os.RemoveAll(fsRoot)
 	c.Finish()
